@@ -55,6 +55,16 @@ func concurrently(n, g int, sd int64, f func(worker, i int)) {
 		if len(p)%2 == 0 {
 			runtime.Gosched()
 		}
+		if p == "file-read" {
+			// between the seek and the read of a file-backed retrieval: under the list's lock nobody else can be here, and
+			// giving way costs nothing; a list that lets two readers in will have them swap places here, however busy the
+			// machine is
+			runtime.Gosched()
+			for i := 0; i < 200; i++ {
+				_ = i * i
+			}
+			runtime.Gosched()
+		}
 	})
 	defer setYield(nil)
 	var wg sync.WaitGroup
